@@ -7,7 +7,7 @@
 import numpy as np
 from fractions import Fraction as Q
 from pyvc import terms as tm
-from pyvc.interp import Obj, Builtin
+from pyvc.interp import Obj, Builtin, Unsupported
 from contracts.evalharness import ufn
 
 PMOD = "ciderpress.dft.plans"
@@ -25,8 +25,19 @@ def install_coef_contract(it, nalpha):
         a = np.asarray(arg_g, dtype=object).reshape(-1)
         order = plan.fields["coef_order"]
         shape = (a.size, nalpha) if order == "gq" else (nalpha, a.size)
-        p = np.empty(shape, dtype=object)
-        dp = np.empty(shape, dtype=object)
+        vbuf = kwargs.get("vbuf", args[4] if len(args) > 4 else None)
+        dbuf = kwargs.get("dbuf", args[5] if len(args) > 5 else None)
+
+        def out(buf):
+            # plan.empty_coefs(ngrids, buf=vbuf) = np.ndarray(shape, buffer=vbuf): the result aliases the caller's buffer when one is given
+            if buf is None:
+                return np.empty(shape, dtype=object)
+            b = np.asarray(buf)
+            if b.dtype != object or not b.flags.c_contiguous or b.size < shape[0] * shape[1]:
+                raise Unsupported("coefficient buffer model: need a C-contiguous object array at least as large as the result")
+            return b.reshape(-1)[: shape[0] * shape[1]].reshape(shape)
+        p = out(vbuf)
+        dp = out(dbuf)
         for g in range(a.size):
             for q in range(nalpha):
                 idx = (g, q) if order == "gq" else (q, g)
